@@ -57,6 +57,7 @@ type Engine struct {
 	bgGlobals          map[string]bool
 	tbsCache           map[string]types.Type
 	curReplay          string
+	conjOnly           bool // second attempts: conjunct runs only
 	replayTerms        map[string][]ReplayTerm // function -> named terms to read back from a model
 	bgT, vcT, weT, esT types.Type
 }
